@@ -26,6 +26,20 @@ def repo_state():
         return 'unknown'
 
 
+FINDER_BOUNDS = {
+    'find_rel_pair': 'every operator/modifier combination x every pair of ranges over a 9-character text',
+    'find_offset_accept': 'all cursor pairs in -(L+2)..L+2, both alignments, L = 9',
+    'find_limit_slice': 'n <= 6 items, begin/end in -8..8',
+    'find_related_text': 'every operator over about 40 known selections of a 9-character text',
+    'find_handles_setops': 'every pair of duplicate-free sequences of length <= 4 over 5 handles',
+    'find_reindex_ids': 'every subset of 6 annotations removed, then reindex()',
+    'find_store_consistency': '12 annotations over all nine selector kinds, 3 index configurations, every single and double annotation removal, 7 other removals',
+    'find_segmentation': 'every set of <= 3 of 8 selections over a 10-character text, milestone intervals 0/2/3',
+    'find_utf8': '8 texts of 1-4 byte codepoints, 5 milestone intervals, every position and every sub-selection',
+    'find_index_walk': 'every range over a 9-character text, forward and backward, 11 known selections',
+}
+
+
 def run_kani(harness, timeout=1500):
     """bounded stand-in: one Kani harness of hooks/in_crate.rs inside the real crate; scratch target dir removed afterwards"""
     import shutil
@@ -156,8 +170,24 @@ def decide(prop, tier='quick', rlimit=None):
                                        props=[prop], file=h.get('file', ''), line=0, cid=f"{h['function']}/bounded[{h['harness']}]", unit='kani'))
             elif b['status'] == 'undetermined':
                 infra.append(f"[kani] harness {h['harness']} did not finish: {b['tail'][-300:]}")
+        # dynamic cross-check (labelled bounded, never counted as proved): the executable twins of the contract clauses are run
+        # through the real code over their whole small-input space even when every obligation discharged; a failing input
+        # found this way is a violation with a concrete input (it covers glue the contracts do not reach, e.g. the removal cascade)
+        fnames = conf.get('finders', [])
+        if fnames and not os.environ.get('VX_NO_WITNESS'):
+            from . import witness as wit
+            for name, res in wit.run_finders(fnames).items():
+                b = dict(harness=name, kind='exhaustive small-input enumeration through the real code (replay/finder.rs)', bound=FINDER_BOUNDS.get(name, 'see replay/finder.rs'),
+                         status='failing input found' if res['found'] else ('passed' if res['completed'] else 'undetermined'), cmd=res['cmd'])
+                bounded.append(b)
+                if res['found']:
+                    violations.append(dict(fn=name, clause=None, msg='a failing input was found by running the real code', src=None, rendered=json.dumps(res.get('input')),
+                                           props=[prop], file='replay/finder.rs', line=0, cid=f"{name}/bounded-dynamic", unit='finder', kind='contract'))
+                elif not res['completed']:
+                    infra.append(f"[finder] {name} did not finish: {res.get('note', '')[-300:]}")
     else:
         bounded = [dict(harness=h['harness'], bound=h['bound'], real_function=h['function'], status='not run in the quick tier') for h in conf.get('kani', [])]
+        bounded += [dict(harness=n, bound=FINDER_BOUNDS.get(n, 'see replay/finder.rs'), status='not run in the quick tier (runs when a proof step fails, and in the thorough tier)') for n in conf.get('finders', [])]
     # --------------------------------------------------------------- output
     os.makedirs(EVID, exist_ok=True)
     rc = 0
